@@ -76,7 +76,7 @@ func (g *gateWriter) close() {
 var raceLogOffset int64
 
 func raceLogPath() string {
-	p := os.Getenv("VERIF_RACE_LOG")
+	p := vs.Cfg("VERIF_RACE_LOG")
 	if p == "" {
 		return ""
 	}
@@ -184,7 +184,7 @@ func runX(t *testing.T, ch *vs.Choices, prop, tier string, render bool) *vs.RunO
 	stdin, _ := os.Open(stdinPath)
 	defer stdin.Close()
 	reps := 1
-	if os.Getenv("VERIF_REPLAY") != "" {
+	if vs.Cfg("VERIF_REPLAY") != "" {
 		reps = 40 // a replay repeats the case: the runtime's interleaving between batch releases is not ours
 	}
 	_ = readNewRaceReports() // anything written before this run does not belong to it
